@@ -24,8 +24,8 @@ RULE = ("stateful mostly-valid generator over 4 users with different and changin
         "inside the window, below the minimum energy, zero, tokens without energy) on the real dex/farm with boosted yields: "
         "enter (with merge) / claim / compound / exit (partial) / merge / claimBoostedRewards, farm-token transfers between "
         "users followed by the receiver using the received token (optionally after the sender settled), week advances of "
-        "1..7 weeks, intra-week epoch advances, setBoostedYieldsFactors between weeks (incl. rejected argument sets and "
-        "cE+cF=0), percentage changes (0..10000, 10001), percentage before factors, collectUndistributedBoostedRewards by "
+        "1..7 weeks, intra-week epoch advances, setBoostedYieldsFactors between weeks (incl. rejected argument sets: zero "
+        "minimums, cE=cF=0), percentage changes (0..10000, 10001), percentage before factors, collectUndistributedBoostedRewards by "
         "admin and non-admin, updateEnergyForUser, pause/resume, rate changes, malformed payments; energies and positions exactly at / "
         "one off the configured minimums; factor changes right after a week change; plus 3 scripted corpus histories (sender "
         "settles, transfers, receiver compounds; percentage before factors; nobody eligible, then collect).  non-trivial = successful "
@@ -59,13 +59,17 @@ def monitor(cfg, op, o):
     k = op[0]
     cw = o["week"]
     g = o["ghost"]
+    fac_valid = k == "SetFactors" and op[1] == sb.OWNER and op[2][3] > 0 and op[2][4] > 0 and (op[2][1] > 0 or op[2][2] > 0)
     if not o["ok"]:
-        if k == "SetFactors" and op[1] == sb.OWNER and op[2][3] > 0 and op[2][4] > 0:
-            out.append(("set-factors-guard", f"{op} by the admin with positive minimums was rejected: {o['msg']!r}"))
+        if k == "SetFactors" and fac_valid:
+            out.append(("set-factors-guard", f"{op} by the admin with positive minimums and a positive reward constant was rejected: {o['msg']!r}"))
+        # the formula's division can never fail: the setter rejects cE = cF = 0
+        if k in sb.USER_OPS and ("panic occurred" in o["msg"].lower() or "division" in o["msg"].lower()):
+            out.append((f"boosted-division-by-zero:{k}", f"{op} at week {cw} aborted with {o['msg']!r}; stored factors {pre['cfg']}"))
         return out
     # ---- accepted configuration calls: exactly the documented guards
-    if k == "SetFactors" and not (op[1] == sb.OWNER and op[2][3] > 0 and op[2][4] > 0):
-        out.append(("set-factors-guard", f"{op} was accepted (caller must be admin, both minimums > 0)"))
+    if k == "SetFactors" and not fac_valid:
+        out.append(("set-factors-guard", f"{op} was accepted (caller must be admin, both minimums > 0, cE > 0 or cF > 0)"))
     if k == "Collect" and op[1] != sb.OWNER:
         out.append(("collect-by-non-admin", f"{op} succeeded"))
     # ---- the factors of a week = the latest accepted ones when the week ended (last 4 completed weeks + running one)
@@ -127,8 +131,9 @@ def monitor(cfg, op, o):
                 out.append(("week-paid-twice", f"{op}: user {op[1]} is paid {x} for week {w} again"))
         for w, e in ex.items():
             x = o["paid"].get(w, 0)
-            if e["x"] is None:
-                continue            # cE + cF = 0 with every threshold met: the documented value is undefined
+            if e["x"] is None:      # cE + cF = 0 in force for an eligible week: must be impossible
+                out.append((f"boosted-division-by-zero:{k}", f"{op} at week {cw}: the factors of week {w} are {e['fac']} (cE + cF = 0)"))
+                continue
             if x > e["x"] or (e["x"] == 0 and x != 0) or x <= e["x"] - SLACK and x >= 0:
                 out.append(("boosted-formula", f"{op} at week {cw}: paid {x} for week {w}; min(maxF*R*f/F, R*(cE*e/E+cF*f/F)/(cE+cF)) = "
                                                f"{float(e['x'])} with R={e['R']} f={e['f']} F={e['F']} e={e['e']} E={e['E']} factors={e['fac']}"))
@@ -212,6 +217,18 @@ def nontrivial(cfg, op, o):
 E18 = 10 ** 18
 # scripted histories run in every exploration besides the generated ones (deterministic regression corpus)
 CORPUS = [
+    # the history that showed the zero-constants defect before fix fee846b: the second setting is now rejected and
+    # every later settlement of the eligible users succeeds
+    dict(name="zero-reward-constants-rejected",
+         cfg=dict(dsc=10 ** 12, same=True, rate=10 ** 6, epoch0=5, scale=1000, late_factors=False),
+         ops=[["SetPct", 100, 2500], ["SetFactors", 100, [2, 0, 0, 1, 1]], ["SetFactors", 100, [3, 1, 2, 1, 100]],
+              ["Energy", 1, 28537554272, 0], ["Energy", 2, 5000, 1], ["Energy", 4, 5823, 0],
+              ["Enter", 3, 445000, []], ["Enter", 4, 1000, []], ["Enter", 2, 238000, []], ["Enter", 1, 65000, []],
+              ["SetFactors", 100, [2, 0, 0, 1, 1000]], ["SetFactors", 100, [2, 0, 0, 1, 1]], ["Enter", 3, 103000, []],
+              ["Advance", 10, 7],
+              ["Enter", 4, 69, []], ["Enter", 2, 1, []], ["ClaimBoosted", 4], ["Exit", 1, (4, 65000)],
+              ["Merge", 4, [(2, 665)]], ["Claim", 2, (3, 238000), []], ["Compound", 3, (5, 103000), []],
+              ["SetFactors", 100, [1, 0, 1, 1, 1]], ["Advance", 10, 7], ["ClaimBoosted", 4], ["ClaimBoosted", 2]]),
     dict(name="transfer-then-receiver-compounds",
          cfg=dict(dsc=10 ** 12, same=True, rate=10 ** 15, epoch0=5, scale=E18, late_factors=False),
          ops=[["SetPct", 100, 2500], ["SetFactors", 100, [2, 3, 2, 1, 1]],
